@@ -42,11 +42,11 @@ fn sort_identity(mut values: Vec<Val>) -> Result<Vec<Val>> {
 	// Fast path, identity key getter
 	let sort_type = get_sort_type(&values, |k| k)?;
 	match sort_type {
-		SortKeyType::Number => values.sort_unstable_by_key(|v| match v {
+		SortKeyType::Number => values.sort_by_key(|v| match v {
 			Val::Num(n) => *n,
 			_ => unreachable!(),
 		}),
-		SortKeyType::String => values.sort_unstable_by_key(|v| match v {
+		SortKeyType::String => values.sort_by_key(|v| match v {
 			Val::Str(s) => s.clone(),
 			_ => unreachable!(),
 		}),
@@ -54,7 +54,7 @@ fn sort_identity(mut values: Vec<Val>) -> Result<Vec<Val>> {
 			let mut err = None;
 			// evaluate_compare_op will never return equal on types, which are different from
 			// jsonnet perspective
-			values.sort_unstable_by(|a, b| match evaluate_compare_op(a, b, BinaryOpType::Lt) {
+			values.sort_by(|a, b| match evaluate_compare_op(a, b, BinaryOpType::Lt) {
 				Ok(ord) => ord,
 				Err(e) if err.is_none() => {
 					let _ = err.insert(e);
